@@ -78,6 +78,7 @@ class Env:
     self.keep_alive = []
     self.seq_batches = []  # per op: sorted sequence ids of entries it created
     self.own_violations = []
+    self.tracking_off = False   # set_tracking(False) was called and never undone
 
   def cfg(self, op, field='c'):
     if not self.cfgs:
@@ -129,6 +130,11 @@ def apply_op(env: Env, op):
     # whether `late_touch` came before or after the registration is a matter of
     # order and both are fine; what a thread sees AFTER registering is not
     return 'order-dependent' if k == 'late_touch' else out
+  if k == 'tracking_off':
+    # the thread switches history tracking off for good (and ends like that)
+    fdl_history.set_tracking(enabled=False)
+    env.tracking_off = True
+    return fdl_history.tracking_enabled()
   if k == 'tvalue':
     # a stand-alone TaggedValue (Tag.new): a small configuration made and dropped
     tv = stubmod.TAGS[op['tag']].new(op['v'])
@@ -256,7 +262,7 @@ def step(env: Env, op):
       out['own_class'] = isinstance(e, env.exc_class)
   env.obs.append({'op': op['op'], 'out': out,
                   'tracking': fdl_history.tracking_enabled(),
-                  'expected_tracking': not env.suspend})
+                  'expected_tracking': not env.suspend and not env.tracking_off})
   env.seq_batches.append(sorted(env.new_entries()))
 
 
